@@ -7,16 +7,18 @@ class C34(Spec):
     harness = "h_c34"
     lean_deps = ("C33",)
     required_theorems = ("C34.rebuild_exact", "C34.rebuild_or_wait", "C34.available_when_distinct", "C34.missing_waits",
-                         "C34.timeout_requests_full", "C34.no_request_for_old_height")
+                         "C34.timeout_requests_full", "C34.complete_pool_rebuilds_at_any_time",
+                         "C34.request_only_after_failed_rebuild", "C34.no_request_for_old_height")
     level_text = ("Lean theorems over the light-block model shared with C33 (addLtBlock / buildPendBlock incl. in-place "
                   "group expansion / buildPendList / pendBlockLoop tick; the pool as the first-push-wins short-hash map of "
                   "mempool.SHashTxCache), for every block shape (miner + any sequence of single transactions and groups): if "
                   "every segment head is retrievable by its short hash (which follows from 'all transactions pooled and short "
                   "hashes of pool and block pairwise distinct'), the block posted is exactly the original transaction list in "
-                  "the original positions; a block that cannot be completed stays queued below the timeout; at the timeout it "
+                  "the original positions; a block that cannot be completed stays queued below the timeout; at every pass the rebuild is tried first, so a "
+                  "block the pool completes is rebuilt whatever its pending time and a request is only sent after a failed rebuild; at the timeout it "
                   "is removed and a block request goes to the sender iff its height is above the current one. Tie: real blocks "
                   "with real CreateTxGroup groups at every position -> real buildLtBlock -> wire encode/decode -> real receive "
-                  "path, pool = every subset (real SHashTxCache), arrivals before / after the timeout with the clock moved by "
+                  "path, pool = every subset (real SHashTxCache), arrivals before / after the timeout (also before the timeout with the next loop pass only after it) with the clock moved by "
                   "types.SetTimeDelta, the loop body stepped; each step abstracted to the model's op line and compared; the "
                   "property predicate (byte-identical transactions in place, block hash, merkle root, nothing posted while "
                   "incomplete, request on timeout) evaluated on the implementation.")
